@@ -178,3 +178,24 @@ Proof.
   - rewrite (fs_inserts_at_quiet mf j e c ins (s_new c) st 0 Hins ltac:(lia)). rewrite N.add_0_l, (A1 Hj). reflexivity.
   - rewrite (fs_inserts_at_quiet mf j e c ins (s_new c) st 0 Hins ltac:(lia)). rewrite N.add_0_l, (A2 ltac:(lia)). reflexivity.
 Qed.
+
+(* ---- the resumable insert agrees with fs_insert: same result, and on success the same state ---- *)
+Theorem fs_insert_r_agrees c cr mf st k v :
+  match fs_insert c cr mf st k v with
+  | Done st' => fs_insert_r c cr mf st k v = (st', Done tt)
+  | Panic => snd (fs_insert_r c cr mf st k v) = Panic
+  | Fail e => snd (fs_insert_r c cr mf st k v) = Fail e
+  end.
+Proof.
+  unfold fs_insert, fs_insert_r, fs_write_chunk, fs_merge_chunks. generalize 80%nat. intro fuel.
+  destruct ((U32_MAX <? len k) || (U32_MAX <? len v)); [reflexivity|].
+  destruct (eb_fits (ss_buf st) (entry_sz k v)) as [f| |]; cbn [bind]; try reflexivity.
+  destruct (f || (negb (sc_threshold c <=? eb_L (ss_buf st)) && sc_realloc c)).
+  - destruct (eb_insert fuel (ss_buf st) (entry_sz k v)) as [b| |]; cbn [bind]; reflexivity.
+  - destruct (cr (creates (ss_events st))) as [e|]; cbn [bind]; [reflexivity|].
+    destruct (s_write_chunk mf st) as [st1| |]; cbn [bind]; try reflexivity.
+    destruct (eb_insert fuel (ss_buf st1) (entry_sz k v)) as [b| |]; cbn [bind]; try reflexivity.
+    cbv zeta. destruct (sc_max_chunks c <=? len (ss_chunks (mk_sstate [(k, v)] b (ss_chunks st1) (ss_calls st1) (ss_events st1)))); [|reflexivity].
+    destruct (cr (creates (ss_events (mk_sstate [(k, v)] b (ss_chunks st1) (ss_calls st1) (ss_events st1))))) as [e|]; [reflexivity|].
+    destruct (s_merge_chunks mf _) as [st3| |]; reflexivity.
+Qed.
